@@ -37,7 +37,9 @@ _DRIVER = {}
 
 
 def _driver(ctx, infile, outfile, mode):
-    """ctx.driver, but the extraction + OCaml build (which takes the shared coq lock) happens once per check."""
+    """ctx.driver, but (a) the extraction + OCaml build (which takes the shared coq lock) happens once per
+    check and (b) the input is cut at type boundaries (a `T` line and its cases) and run by several driver
+    processes in parallel; outputs are concatenated in input order."""
     import subprocess
     import vlib
     if "exe" not in _DRIVER:
@@ -45,13 +47,60 @@ def _driver(ctx, infile, outfile, mode):
         if exe is None:
             return None, out[-3000:]
         _DRIVER["exe"] = exe
-    with open(os.path.join(ctx.workdir, infile)) as fi, open(os.path.join(ctx.workdir, outfile), "w") as fo:
-        try:
-            p = subprocess.run(["bash", "-c", 'ulimit -s unlimited 2>/dev/null; exec "$0" "$@"', _DRIVER["exe"], mode],
-                               stdin=fi, stdout=fo, stderr=subprocess.PIPE, timeout=3000, cwd=ctx.workdir)
-        except subprocess.TimeoutExpired:
+    lines = _lines(ctx, infile)
+    segs, cur = [], []
+    for l in lines:
+        if l.startswith("T ") and len(cur) >= 2000:
+            segs.append(cur)
+            cur = []
+        cur.append(l)
+    if cur:
+        segs.append(cur)
+    # a segment may start in the middle of nothing: every segment starts with a T line by construction,
+    # except possibly when a single type has no T line at all (never produced by the harness)
+    procs, errs = [], []
+    maxpar = max(1, min(12, (os.cpu_count() or 4) - 2))
+    pending = list(enumerate(segs))
+    running = []
+
+    def start(i, seg):
+        fi = os.path.join(ctx.workdir, "%s.seg%d.in" % (mode, i))
+        fo = os.path.join(ctx.workdir, "%s.seg%d.out" % (mode, i))
+        with open(fi, "w") as f:
+            f.write("\n".join(seg) + "\n")
+        p = subprocess.Popen(["bash", "-c", 'ulimit -s unlimited 2>/dev/null; exec "$0" "$@" < "%s" > "%s"' % (fi, fo),
+                              _DRIVER["exe"], mode], stderr=subprocess.PIPE, cwd=ctx.workdir)
+        return (i, p, fi, fo)
+    deadline = time.time() + 3000
+    results = {}
+    while pending or running:
+        while pending and len(running) < maxpar:
+            i, seg = pending.pop(0)
+            running.append(start(i, seg))
+        still = []
+        for (i, p, fi, fo) in running:
+            rc = p.poll()
+            if rc is None:
+                still.append((i, p, fi, fo))
+            else:
+                err = p.stderr.read().decode(errors="replace")
+                if rc != 0:
+                    errs.append("segment %d rc=%s %s" % (i, rc, err[-500:]))
+                results[i] = fo
+                os.remove(fi)
+        running = still
+        if time.time() > deadline:
+            for (_, p, _, _) in running:
+                p.kill()
             return 124, "driver timeout"
-    return p.returncode, p.stderr.decode(errors="replace")[-2000:]
+        if running:
+            time.sleep(0.05)
+    with open(os.path.join(ctx.workdir, outfile), "w") as out:
+        for i in range(len(segs)):
+            with open(results[i]) as f:
+                out.write(f.read())
+            os.remove(results[i])
+    return (1 if errs else 0), "; ".join(errs)[:2000]
 
 
 def run_batch(ctx, tag, args, seed=None):
@@ -88,6 +137,7 @@ def run_batch(ctx, tag, args, seed=None):
     types = {}
     diffs, fails, errors = [], [], []
     per_type = {}
+    nontrivial = set()
     for k in range(len(cases)):
         c = cases[k].split(" ")
         if c[0] == "T":
@@ -95,6 +145,8 @@ def run_batch(ctx, tag, args, seed=None):
         tdesc = types.get(c[1], "?") if len(c) > 1 else "?"
         if c[0] == "C":
             per_type[tdesc] = per_type.get(tdesc, 0) + 1
+            if implx[k].endswith(" nt=1"):
+                nontrivial.add(hash((tdesc, c[2], c[3])))
         rec = {"type": tdesc, "case": cases[k], "impl": impl[k], "implx": implx[k], "model": model[k], "verdict": verdict[k]}
         if c[0] == "X":
             rec["verdict"] = "FAIL Key::compare is not a consistent order on a triple: " + impl[k]
@@ -108,7 +160,7 @@ def run_batch(ctx, tag, args, seed=None):
             diffs.append(rec)
     for n in ("cases.txt", "impl.txt", "implx.txt", "model.txt", "verdict.txt"):
         shutil.copy(os.path.join(ctx.workdir, n), os.path.join(ctx.workdir, tag + "-" + n))
-    return {"stats": stats, "diffs": diffs, "fails": fails, "errors": errors, "per_type": per_type,
+    return {"stats": stats, "diffs": diffs, "fails": fails, "errors": errors, "per_type": per_type, "nontrivial": nontrivial,
             "samples": [{"case": cases[k], "impl_and_model": impl[k], "oracle": verdict[k]}
                         for k in range(len(cases)) if cases[k].startswith("C ")][::max(1, len(cases) // 5)][:5]}
 
@@ -116,6 +168,7 @@ def run_batch(ctx, tag, args, seed=None):
 def reason_class(verdict):
     """A short stable key for a failure reason (first reason, values stripped)."""
     r = verdict[5:].split(";")[0]
+    r = re.sub(r"\[[^\]]*\]", "", r)          # bracketed details (which ordering, panic/none) are not part of the key
     r = re.sub(r"(for [ab]=|value )\S+", r"\1_", r)
     r = re.sub(r"[^A-Za-z0-9]+", "_", r)[:50].strip("_")
     return r
@@ -175,7 +228,7 @@ def run(ctx):
     batches = [("random", [300 if ctx.quick else 5000, "-", "random"])]
     if not ctx.quick:
         batches.append(("exhaustive", [0, "-", "exhaustive"]))
-    all_diffs, dist, per_type, samples = [], {}, {}, []
+    all_diffs, dist, per_type, samples, nontrivial = [], {}, {}, [], set()
     try:
         for tag, args in batches:
             t1 = time.time()
@@ -183,7 +236,8 @@ def run(ctx):
             print("C15: batch %s: %d pairs, %d model/impl differences, %d property failures, %.1fs" % (
                 tag, res["stats"]["cases"], len(res["diffs"]), len(res["fails"]), time.time() - t1), flush=True)
             cov["evaluations"] += res["stats"]["cases"]
-            cov["distinct_nontrivial"] += res["stats"]["distinct_nontrivial"]
+            nontrivial |= res["nontrivial"]
+            cov["distinct_nontrivial"] = len(nontrivial)   # distinct (type, a, b) over all batches of this run
             cov["key_types"] = max(cov.get("key_types", 0), res["stats"]["types"])
             for k, v in res["stats"]["markers"].items():
                 dist[k] = dist.get(k, 0) + v
